@@ -373,4 +373,129 @@ theorem labels_last_wins {L} (masks : List (L × (Nat → Nat → Bool))) (r c :
     · have hm' : m.2 r c = false := by simpa using hm
       simp only [hm', Bool.false_eq_true, if_false]
 
+theorem geoOf_translate (dx dy : Int) (a : Pt) (r : List Pt) :
+    geoOf (translate dx dy (a :: r)) =
+      ⟨(geoOf (a :: r)).es.map (Edge.shift dx dy), (geoOf (a :: r)).xlo + dx, (geoOf (a :: r)).ybot + dy,
+        (geoOf (a :: r)).ytop + dy, (geoOf (a :: r)).width⟩ := by
+  have he := edgesOf_translate dx dy (a :: r)
+  have h1 := minX_translate dx dy r a.x
+  have h2 := minY_translate dx dy r a.y
+  have h3 := maxX_translate dx dy r a.x
+  have h4 := maxY_translate dx dy r a.y
+  simp only [translate, List.map_cons] at he h1 h2 h3 h4 ⊢
+  simp only [geoOf, he, h1, h2, h3, h4]
+  congr 1
+  omega
+
+/-- **translate_equivariant.** Shifting the polygon by whole pixels shifts the (unclipped) marking
+    by the same amount, the slack being transported along. -/
+theorem translate_equivariant (σ' : Slack) (dx dy : Int) (v : List Pt) (p y : Int) :
+    canvasMarked σ' (geoOf (translate dx dy v)) (p + dx) (y + dy) =
+      canvasMarked (fun e y => σ' (e.shift dx dy) (y + dy)) (geoOf v) p y := by
+  cases v with
+  | nil => simp [translate, geoOf, canvasMarked]
+  | cons a r =>
+    rw [geoOf_translate]
+    unfold canvasMarked activeAt
+    simp only
+    have hrange : (((geoOf (a :: r)).ybot + dy ≤ y + dy ∧ y + dy ≤ (geoOf (a :: r)).ytop + dy ∧ 0 < (geoOf (a :: r)).width)) ↔
+        ((geoOf (a :: r)).ybot ≤ y ∧ y ≤ (geoOf (a :: r)).ytop ∧ 0 < (geoOf (a :: r)).width) := by omega
+    have hlt : (y + dy < (geoOf (a :: r)).ytop + dy) ↔ (y < (geoOf (a :: r)).ytop) := by omega
+    have hact : (if y + dy < (geoOf (a :: r)).ytop + dy then
+          activeLo ((geoOf (a :: r)).es.map (Edge.shift dx dy)) (y + dy)
+        else activeLo ((geoOf (a :: r)).es.map (Edge.shift dx dy)) ((geoOf (a :: r)).ytop + dy - 1)) =
+        (if y < (geoOf (a :: r)).ytop then activeLo (geoOf (a :: r)).es y
+          else activeLo (geoOf (a :: r)).es ((geoOf (a :: r)).ytop - 1)).map (Edge.shift dx dy) := by
+      by_cases h : y < (geoOf (a :: r)).ytop
+      · rw [if_pos h, if_pos (hlt.mpr h), activeLo_shift]
+      · rw [if_neg h, if_neg (fun h' => h (hlt.mp h'))]
+        have : (geoOf (a :: r)).ytop + dy - 1 = ((geoOf (a :: r)).ytop - 1) + dy := by omega
+        rw [this, activeLo_shift]
+    rw [hact]
+    have hrow : ∀ act : List Edge, rowXs σ' (act.map (Edge.shift dx dy)) (y + dy) =
+        (rowXs (fun e y => σ' (e.shift dx dy) (y + dy)) act y).map (· + dx) := by
+      intro act
+      unfold rowXs
+      rw [List.map_map, List.map_map]
+      apply List.map_congr_left
+      intro e _
+      simp only [Function.comp, shift_xAt, Rat.ceil_add_intCast]
+      omega
+    rw [hrow, sortInts_map_add, markedBy_map_add]
+    congr 1
+    simp only [hrange]
+
+/-- **shift_harmless.** The polygon's internal shift to non-negative coordinates does not change
+    the result: what `scan` writes at image pixel `(r, c)` is the canvas marking of the *unshifted*
+    rounded polygon at `(c, r)` (with the slack transported). -/
+theorem shift_harmless (σ : Slack) (rv : List Pt) (p : Prep) (hp : prep rv = .ok p) (c r : Int) :
+    canvasMarked σ (geoOf p.verts) (c - p.shiftx) (r - p.shifty) =
+      canvasMarked (fun e y => σ (e.shift (-p.shiftx) (-p.shifty)) (y + -p.shifty)) (geoOf rv) c r := by
+  unfold prep at hp
+  split at hp
+  · cases hp
+  · injection hp with hp
+    subst hp
+    simp only
+    have := translate_equivariant σ (-(minX rv 0)) (-(minY rv 0)) rv c r
+    simp only [Int.sub_eq_add_neg]
+    exact this
+
+/-- **aetLoop_perm_activeAt.** The Active Edge Table maintained incrementally by the scan loop
+    (append edges starting at `y`, drop edges ending at `y`, no update on the top row) is, on every
+    row of the polygon, a permutation of the closed-form active set the theorems above speak of. -/
+theorem aetLoop_perm_activeAt (v : List Pt) (y : Int)
+    (hy : (geoOf v).ybot ≤ y ∧ y ≤ (geoOf v).ytop) :
+    (aetLoop (geoOf v).es (geoOf v).ybot (geoOf v).ytop (y - (geoOf v).ybot).toNat).Perm
+      (activeAt (geoOf v) y) := by
+  have h := aetLoop_perm (geoOf v).es (geoOf v).ybot (geoOf v).ytop (geoOf_ybot_le v)
+    (y - (geoOf v).ybot).toNat
+  have hk : (geoOf v).ybot + (((y - (geoOf v).ybot).toNat : Nat) : Int) = y := by omega
+  rw [hk] at h
+  unfold activeAt
+  by_cases hlt : y < (geoOf v).ytop
+  · rw [if_pos hlt] at h ⊢; exact h
+  · rw [if_neg hlt] at h ⊢
+    by_cases hb : (geoOf v).ybot < (geoOf v).ytop
+    · rw [if_pos hb] at h; exact h
+    · rw [if_neg hb] at h
+      rw [activeLo_below_nil _ _ _ (geoOf_ybot_le v) (by omega)]
+      exact h
+
+/-- **scanMaskLoop_eq_scanMask.** Hence the mask computed with the loop's own table equals the mask
+    computed with the closed-form active sets. -/
+theorem scanMaskLoop_eq_scanMask (σ : Slack) (p : Prep) (ny nx : Nat) :
+    scanMaskLoop σ p ny nx = scanMask σ p ny nx := by
+  unfold scanMaskLoop scanMask
+  simp only
+  apply List.map_congr_left
+  intro r _
+  congr 1
+  unfold rowColsLoop rowCols
+  simp only
+  split
+  · rename_i hc
+    have hperm := aetLoop_perm_activeAt p.verts ((r : Int) - p.shifty) ⟨hc.2.1, hc.2.2.1⟩
+    have : sortInts (rowXs σ (aetLoop (geoOf p.verts).es (geoOf p.verts).ybot (geoOf p.verts).ytop
+        ((r : Int) - p.shifty - (geoOf p.verts).ybot).toNat) ((r : Int) - p.shifty)) =
+        sortInts (rowXs σ (activeAt (geoOf p.verts) ((r : Int) - p.shifty)) ((r : Int) - p.shifty)) := by
+      apply sortInts_eq_of_perm
+      unfold rowXs
+      exact hperm.map _
+    rw [this]
+  · rfl
+
+/-! ### Non-vacuity: the hypotheses are met by a concrete polygon (tests, labelled as such) -/
+
+def sq : List Pt := [⟨0, 0⟩, ⟨4, 0⟩, ⟨4, 4⟩, ⟨0, 4⟩, ⟨0, 0⟩]
+
+example : sq.head (by decide) = sq.getLast (by decide) := by decide
+example : 0 < (geoOf sq).width ∧ (geoOf sq).ybot ≤ 2 ∧ 2 < (geoOf sq).ytop := by decide
+instance (v : List Pt) (p y : Int) : Decidable (InsideLo v p y) := by unfold InsideLo; exact inferInstance
+example : InsideLo sq 2 2 := by decide +kernel
+example : Admissible noSlack := fun _ _ => Or.inl rfl
+example : canvasMarked noSlack (geoOf sq) 2 2 = true :=
+  covers_strict_interior noSlack (fun _ _ => Or.inl rfl) sq (by decide) (by decide) (by decide) 2 2
+    (by decide) (Or.inl ⟨by decide, by decide +kernel⟩)
+
 end Gwcs.Poly
